@@ -28,6 +28,25 @@ def scenarios(ctx, thorough):
     for h in hists[: (250 if thorough else 30)]:
         sid += 1
         scs.append(S.mk(sid, "tlc-hints", "dispatch", S.project(h, rng, S.ALL_KINDS), gates=["send.genid"]))
+    # behaviours in which the application also makes calls that fail at serialisation (Client!EncodeFail) between the others' steps
+    hists = [h for h in S.tlc_schedules(ctx, "ClientGenBad.cfg", 300 if thorough else 60) if any(x.get("a") == "BadCall" for x in h)]
+    for h in hists[: (150 if thorough else 20)]:
+        sid += 1
+        scs.append(S.mk(sid, "tlc-badcall", "dispatch", S.project(h, rng, S.ALL_KINDS), gates=["send.genid"]))
+    # the named one: a request is waiting for its result (of each kind) when another goroutine's call fails at serialisation
+    for kind in S.ALL_KINDS:
+        sid += 1
+        scs.append(S.mk(sid, "badcall-while-waiting", "dispatch", [S.call("c1", 11, kind), {"a": "Sleep", "n": 60}, {"a": "BadCall"},
+                        {"a": "Answer", "tags": [11], "n": 400}, {"a": "Drain"}, {"a": "Settle"}]))
+    # a clock that stands still or is set back while several requests are outstanding: every caller still gets its own result
+    for clock in ("frozen", "stepback"):
+        for n in (3, 5):
+            sid += 1
+            cs = ["c%d" % i for i in range(1, n + 1)]
+            scs.append(S.mk(sid, "clock-%s-%d" % (clock, n), "dispatch",
+                            [{"a": "Probe", "tag": 90}, {"a": "Probe", "tag": 91}, {"a": "Probe", "tag": 92}, {"a": "Probe", "tag": 93}] +
+                            [S.call(c, 10 + i, S.ALL_KINDS[i % len(S.ALL_KINDS)]) for i, c in enumerate(cs)] +
+                            [{"a": "Answer", "tags": [10 + i for i in reversed(range(n))], "container": True, "n": 400}, {"a": "Drain"}, {"a": "Settle"}], clock=clock))
     # the answer arrives while the caller is still inside the send section
     for kind in S.ALL_KINDS:
         for gz in (False, True):
@@ -77,6 +96,8 @@ def run(ctx):
     mc = model_check(ctx, thorough)
     C.run_tlc(ctx, "Client", "ClientDevGenIdOutsideLock.cfg", workers=4, expect_violation=True, timeout=300, tag="sensitivity:GenIdOutsideLock")
     mh = C.run_tlc(ctx, "Client", "ClientHints.cfg", workers=C.NCPU, timeout=1800, tag="ClientHints.cfg")
+    C.run_tlc(ctx, "Client", "ClientBad.cfg", workers=C.NCPU, timeout=1800, tag="ClientBad.cfg")
+    C.run_tlc(ctx, "Client", "ClientDevCleanupOnEncodeFail.cfg", workers=4, expect_violation=True, timeout=300, tag="sensitivity:CleanupLastIdOnEncodeFail")
     for d in ("HintKeyedByServerId", "NoHintInsideGzip"):
         C.run_tlc(ctx, "Client", "ClientDev%s.cfg" % d, workers=4, expect_violation=True, timeout=300, tag="sensitivity:" + d)
     scs = scenarios(ctx, thorough)
